@@ -5,9 +5,18 @@ Streams
   C06.ri   cfdm.RaggedIndexedArray               -> Data.array / subspace        (model + oracle)
   C06.ric  cfdm.RaggedIndexedContiguousArray     -> Data.array / subspace        (model + oracle)
   C06.ga   cfdm.GatheredArray (leading/trailing dimensions, unsorted list)       (model + oracle)
-  C06.cmp  Field.compress(method) of a masked 2-d/3-d field, then .array          (model + oracle)
-  C06.rd   the same four encodings written to a netCDF file by the harness (netCDF4 only), read with
-           cfdm.read: reader's count/index/list parsing                            (model + oracle)
+  C06.cmp  Field.compress(method) of a masked 2-d/3-d field with metadata constructs on the same axes
+           (shared counts) and on the (instance, profile) axes, then every .array  (model + oracle)
+  C06.rd   the same four encodings written to a netCDF file by the harness (netCDF4 only, several
+           featureTypes, optional DSG coordinate variables), read with cfdm.read: the reader's
+           count/index/list parsing and the shape it derives                      (model + oracle)
+  C06.enc  a compressed field built ab initio (given count / index / list variable, compressed arrays,
+           pinned netCDF names; coordinates on the sample, instance and profile dimensions), written
+           with cfdm.write: the dataset as netCDF4 shows it and what cfdm.read presents  (model + oracle)
+  C06.st   a history of Data operations (array, subspace, copy, assignment, transpose / squeeze /
+           insert_dimension / to_memory / uncompress in place or not, equals, write) on a compressed
+           Data: what every operation shows, which objects are still compressed after every
+           operation, every final array                                          (model + oracle)
   C06.fld  field with same-axes auxiliary coordinates (+bounds): compress, uncompress,
            equals, cfdm.write, independent netCDF4-only decode of the file       (oracle only)
 
@@ -43,25 +52,60 @@ REQUIRED = [
     "C06_indexed_contiguous_old_code_counterexample",
     "C06_compress_old_code_counterexample",
     "C06_compress_indexed_contiguous_old_code_counterexample",
+    "C06_decode_gathered_nd",
+    "C06_gathered_nd_hit",
+    "C06_gathered_nd_miss",
+    "C06_read_contiguous",
+    "C06_read_indexed",
+    "C06_read_indexed_contiguous",
+    "C06_read_shape_sufficient",
+    "C06_compress_counts_contiguous_roundtrip",
+    "C06_compress_counts_indexed_roundtrip",
+    "C06_compress_counts_indexed_contiguous_roundtrip",
+    "C06_counts_fit_needed",
+    "C06_compress_joint_roundtrip",
+    "C06_compress_joint_indexed_contiguous_roundtrip",
+    "C06_compress_profile_metadata_roundtrip_partial",
+    "C06_compress_profile_metadata_counterexample",
+    "C06_file_ragged",
+    "C06_file_writable_iff",
+    "C06_file_mixed_compression_not_writable",
+    "C06_file_gathered",
+    "C06_compress_count_old_code_counterexample",
+    "C06_history_refines_spec",
+    "C06_history_seen_uncompressed",
+    "C06_stays_compressed",
+    "C06_assignment_uncompresses",
+    "C06_compressed_array_unaltered",
+    "C06_history_decoder_irrelevant",
+    "C06_history_shows_cf_arrays",
 ]
 BUDGET = {"quick": 2400, "thorough": 100000}
 RULE = (
     "count vectors with zeros / shorter than the number of rows, index vectors in any order with absent "
-    "instances, list vectors unsorted and sparse over 1-3 compressed dimensions with 0-1 leading and 0-2 trailing "
+    "instances, list vectors unsorted and sparse over 1-3 compressed dimensions with 0-3 leading and 0-2 trailing "
     "dimensions, compressed values masked anywhere, dtypes i4/i8/f4/f8, uncompressed shapes larger than needed; "
-    "every case optionally followed by a C03-style subspace; masked 2-d/3-d fields (all-masked rows, interior "
-    "masked elements, empty profiles and instances) through Field.compress('contiguous'|'indexed'|"
-    "'indexed_contiguous'), uncompress, equals and write + netCDF4-only decode. non-trivial = the compressed "
-    "array is not empty (decode streams) / the field is not entirely masked (compress streams); distinct = "
-    "distinct (stream, full input)"
+    "every case optionally followed by a C03-style subspace and by an assembly from subarrays(shapes=random chunks); "
+    "masked 2-d/3-d fields (all-masked rows, interior masked elements, empty profiles and instances) with 0-2 "
+    "metadata constructs on the same axes (masks unrelated to the data's) and an (instance, profile) coordinate "
+    "through Field.compress('contiguous'|'indexed'|'indexed_contiguous'), re-compression, uncompress, equals and "
+    "write + netCDF4-only decode (name clashes, a second field with other / the same counts); histories of 3-12 "
+    "Data operations (array, subspace, copy, assignment, transpose/squeeze/insert_dimension/to_memory/uncompress "
+    "in place or not, equals, write) on a compressed Data and on everything they return; compressed fields built "
+    "ab initio with pinned netCDF names, DSG coordinates on the sample / instance / profile dimension, with and "
+    "without featureType, written by cfdm.write and read back; files written with netCDF4 only (five featureTypes, "
+    "DSG coordinate variables) read with cfdm.read. non-trivial = the compressed array is not empty (decode, "
+    "history, encoding streams) / the field is not entirely masked (compress streams); distinct = distinct "
+    "(stream, full input)"
 )
 ASSUMPTIONS = [
     "array values are small integers stored as i4/i8/f4/f8 (the model carries abstract elements)",
-    "uncompressed shape large enough for the count/index/list variable (otherwise cfdm raises; excluded by the generators)",
+    "uncompressed shape large enough for the count/index/list variable (otherwise cfdm raises; excluded by the generators; cfdm.read derives a sufficient shape itself: C06_read_*)",
     "list variables hold distinct values (CF 8.2); index values lie below the number of instances",
-    "leading dimensions of a gathered array and the flattening of trailing dimensions are done by the driver around the proved per-sample decoders (C06_extra_dimensions_* state that this commutes)",
-    "the netCDF encoding (count/index/list variables, sample dimension) is checked by an independent netCDF4 decode of files written by cfdm.write, not modelled in Lean",
-    "the theorems are proved for the code as repaired by fixes/C06-*.patch; the code as it is has the decide counter-examples C06_*_old_code_counterexample and the open known findings",
+    "trailing dimensions of ragged arrays are carried as whole samples (C06_extra_dimensions_ragged: mapping over elements commutes with decoding); leading and trailing dimensions of gathered arrays are inside the proved model (C06_decode_gathered_nd)",
+    "the numpy operations of the history model (take, assign, transpose, squeeze, expand_dims, equality) are a parameter of the theorems; the driver instantiates them with Arr definitions that the stream C06.st compares with cfdm and, independently, with numpy on every run",
+    "the netCDF encoding model covers dimensions, variables, their dimensions, the sample_dimension / instance_dimension / compress attributes, featureType and the values; netCDF names are taken as given (hypothesis WF of C06_file_*; that _netcdf_name makes them unique is sampled by stream C06.fld); other attributes, bounds, data types and storage are compared by the oracle only",
+    "the theorems are about the code at /repo HEAD (repairs 82a1a24, 8c31532, d324c79, f1a0d65, d4c0294, 0eac4fa, dd549ba applied); the C06_*_old_code_counterexample theorems document the code before those repairs; four findings are open (known_findings.json)",
 ]
 QUICK_JOBS = 4
 
@@ -209,6 +253,22 @@ def gen_trail(rng):
     return rng.choice([[], [], [], [2], [3], [1], [2, 2]])
 
 
+def gen_chunks(rng, shape):
+    """A partition of every dimension into chunk sizes, for `subarrays(shapes=...)`."""
+    if rng.random() < 0.5:
+        return None
+    out = []
+    for n in shape:
+        parts = []
+        left = n
+        while left > 0:
+            k = rng.randint(1, left)
+            parts.append(k)
+            left -= k
+        out.append(parts if parts else [0])
+    return out
+
+
 def gen_ix(rng, shape):
     if rng.random() < 0.45 or any(n == 0 for n in shape):
         return None
@@ -233,8 +293,9 @@ def gen_rc(rng):
     trail = gen_trail(rng)
     N = sum(count)
     c = gen_values(rng, N * prod(trail), rng.choice([0, 0.15, 0.4]))
+    chunks = gen_chunks(rng, [nrows, ncols] + trail)
     return dict(count=count, shape=[nrows, ncols], trail=trail, c=c, dtype=rng.choice(DTYPES),
-                ix=gen_ix(rng, [nrows, ncols] + trail))
+                ix=gen_ix(rng, [nrows, ncols] + trail), chunks=chunks)
 
 
 def gen_ri(rng):
@@ -251,8 +312,9 @@ def gen_ri(rng):
         index.sort(reverse=True)
     trail = gen_trail(rng)
     c = gen_values(rng, len(index) * prod(trail), rng.choice([0, 0.15, 0.4]))
+    chunks = gen_chunks(rng, [nrows, ncols] + trail)
     return dict(index=index, shape=[nrows, ncols], trail=trail, c=c, dtype=rng.choice(DTYPES),
-                ix=gen_ix(rng, [nrows, ncols] + trail))
+                ix=gen_ix(rng, [nrows, ncols] + trail), chunks=chunks)
 
 
 def gen_ric(rng):
@@ -274,8 +336,9 @@ def gen_ric(rng):
         count.append(0 if q < 0.25 else nelem if q < 0.4 else rng.randint(0, nelem))
     trail = rng.choice([[], [], [], [2]])
     c = gen_values(rng, sum(count) * prod(trail), rng.choice([0, 0.15, 0.4]))
+    chunks = gen_chunks(rng, [ninst, maxp, nelem] + trail)
     return dict(count=count, index=index, shape=[ninst, maxp, nelem], trail=trail, c=c, dtype=rng.choice(DTYPES),
-                ix=gen_ix(rng, [ninst, maxp, nelem] + trail))
+                ix=gen_ix(rng, [ninst, maxp, nelem] + trail), chunks=chunks)
 
 
 def gen_ga(rng):
@@ -288,11 +351,12 @@ def gen_ga(rng):
         lst.sort()
     elif r < 0.45:
         lst.sort(reverse=True)
-    lead = rng.choice([[], [], [2], [3], [1]])
-    trail = rng.choice([[], [], [2], [3], [1, 2]])
+    lead = rng.choice([[], [], [2], [3], [1], [2, 2], [1, 3], [2, 1, 2]])
+    trail = rng.choice([[], [], [2], [3], [1, 2], [2, 2]])
     c = gen_values(rng, prod(lead) * len(lst) * prod(trail), rng.choice([0, 0.15, 0.4]))
+    chunks = gen_chunks(rng, lead + dims + trail)
     return dict(list=lst, lead=lead, dims=dims, trail=trail, c=c, dtype=rng.choice(DTYPES),
-                ix=gen_ix(rng, lead + dims + trail))
+                ix=gen_ix(rng, lead + dims + trail), chunks=chunks)
 
 
 def gen_masked_rows(rng, nrows, ncols, clean):
@@ -315,7 +379,26 @@ def gen_masked_rows(rng, nrows, ncols, clean):
     return flat
 
 
-def gen_cmp(rng, clean=None):
+def row_counts(flat, ncols):
+    """Trailing-mask count of every row of a flat masked array."""
+    out = []
+    for i in range(0, len(flat), ncols):
+        r = flat[i:i + ncols]
+        n = len(r)
+        while n and r[n - 1] is None:
+            n -= 1
+        out.append(n)
+    return out
+
+
+def n_profiles(cnt):
+    n = len(cnt)
+    while n and not cnt[n - 1]:
+        n -= 1
+    return n
+
+
+def gen_cmp(rng, clean=None, extras=True):
     method = rng.choice(["contiguous", "indexed", "indexed_contiguous"])
     if clean is None:
         clean = rng.random() < 0.3
@@ -333,11 +416,52 @@ def gen_cmp(rng, clean=None):
     else:
         shape = [rng.randint(1, 5), rng.randint(1, 5)]
         a = gen_masked_rows(rng, shape[0], shape[1], clean)
-    return dict(method=method, shape=shape, a=a, dtype=rng.choice(DTYPES), clean=clean)
+    p = dict(method=method, shape=shape, a=a, dtype=rng.choice(DTYPES), clean=clean)
+    if not extras:
+        return p
+    # metadata constructs on the same axes, each with a mask of its own (shorter, longer, unrelated):
+    # all of them are packed with ONE count vector
+    nrows = prod(shape[:-1])
+    auxs = []
+    for _ in range(rng.choice([0, 0, 1, 1, 2])):
+        x = gen_masked_rows(rng, nrows, shape[-1], False)
+        auxs.append([None if v is None else 1000 + v for v in x])
+    p["auxs"] = auxs
+    # indexed contiguous: a coordinate on the (instance, profile) axes
+    p["p2"] = None
+    if method == "indexed_contiguous" and rng.random() < 0.6:
+        cnt = [max(t) for t in zip(*[row_counts(x, shape[2]) for x in [a] + auxs])]
+        mp = shape[1]
+        beyond = rng.random() < 0.15
+        p2 = []
+        for i in range(shape[0]):
+            npf = n_profiles(cnt[i * mp:(i + 1) * mp])
+            row = [(None if rng.random() < 0.2 else 2000 + rng.randint(0, 99)) if j < npf else None
+                   for j in range(mp)]
+            if beyond and npf < mp:
+                row[rng.randint(npf, mp - 1)] = 2000 + rng.randint(0, 99)
+            p2 += row
+        p["p2"] = p2
+    return p
+
+
+def p2_beyond(p):
+    """The (instance, profile) coordinate has a value on a profile beyond the last profile of its
+    instance that has any data (in the field or a same-axes construct)."""
+    if p.get("p2") is None:
+        return False
+    shape = p["shape"]
+    cnt = [max(t) for t in zip(*[row_counts(x, shape[2]) for x in [p["a"]] + list(p.get("auxs") or [])])]
+    mp = shape[1]
+    for i in range(shape[0]):
+        npf = n_profiles(cnt[i * mp:(i + 1) * mp])
+        if any(v is not None for v in p["p2"][i * mp + npf:(i + 1) * mp]):
+            return True
+    return False
 
 
 def gen_fld(rng):
-    p = gen_cmp(rng, clean=rng.random() < 0.5)
+    p = gen_cmp(rng, clean=rng.random() < 0.5, extras=False)
     p["aux"] = rng.choice(["none", "same", "same"] if p["clean"] else ["none", "same", "longer", "shorter"])
     p["bounds"] = rng.random() < 0.4
     p["aseed"] = rng.randrange(1 << 30)
@@ -348,7 +472,9 @@ def gen_fld(rng):
     # a second compressed field with OTHER counts in the same file (0: none, 1: written after, 2: before)
     # (not for indexed contiguous arrays: two of those in one file hit writer/reader defects in how fields
     #  share count/index variables — property C09's subject, recorded there)
-    p["second"] = 0 if p["method"] == "indexed_contiguous" else rng.choice([0, 0, 1, 2])
+    # 3 / 4: a second field with the SAME counts, written after / before (the count and index variables are
+    # then shared between the two data variables)
+    p["second"] = rng.choice([0, 0, 3, 4]) if p["method"] == "indexed_contiguous" else rng.choice([0, 0, 1, 2, 3, 4])
     return p
 
 
@@ -357,16 +483,13 @@ def gen_rd(rng):
     p = {"rc": gen_rc, "ri": gen_ri, "ric": gen_ric, "ga": gen_ga}[kind](rng)
     p["kind"] = kind
     p["ix"] = None
-    if len(p["trail"]) > 1:
-        p["trail"] = p["trail"][:1]
-        p["c"] = p["c"][: len(p["c"]) // 2] if kind != "ga" else p["c"]
-    if kind == "ga":
-        p["lead"] = p["lead"][:1]
-        p["c"] = gen_values(rng, prod(p["lead"]) * len(p["list"]) * prod(p["trail"]), rng.choice([0, 0.15, 0.4]))
-    else:
-        n = sum(p["count"]) if kind in ("rc", "ric") else len(p["index"])
-        p["c"] = gen_values(rng, n * prod(p["trail"]), rng.choice([0, 0.15, 0.4]))
-    # the shape a reader derives: instances from the file, elements from the largest count
+    # the global featureType attribute (it only chooses the NAME of the element dimension) and, sometimes,
+    # DSG coordinate variables: one on the sample dimension, one on the instance dimension
+    p["ft"] = rng.choice(["timeSeries", "trajectory", "profile", "point", "TimeSeries"] if kind in ("rc", "ri")
+                         else ["timeSeriesProfile", "trajectoryProfile"])
+    p["coords"] = kind != "ga" and not p["trail"] and rng.random() < 0.5
+    # the shape a reader derives: instances from the file, elements from the largest count.  It is
+    # computed here for the ORACLE only; the model line carries no shape (the model derives it).
     if kind == "rc":
         p["shape"] = [len(p["count"]), max(p["count"], default=0)]
     elif kind == "ri":
@@ -378,8 +501,192 @@ def gen_rd(rng):
     return p
 
 
+def _st_index(rng, shape, simple):
+    """A C03 index expression that selects at least one element on every axis."""
+    kinds = ("i", "s", "s") if simple else ("i", "s", "s", "l", "l", "b")
+    for _ in range(30):
+        ix = c03.gen_index(rng, shape, kinds)
+        if c03._neg_start_below(ix, shape):
+            continue
+        if simple and any(t[0] == "s" and t[3] is not None and t[3] < 0 for t in ix):
+            continue
+        pos = c03.expand([tuple(t) for t in ix], list(shape))
+        if all(len(q) > 0 for q in pos):
+            return ix, [len(q) for q in pos]
+    return [("e",)], list(shape)
+
+
+def gen_st(rng):
+    """A compressed Data and a history of operations on it and on what they return.  Shapes are
+    tracked so that every operation is valid (a few are deliberately not: they must raise and
+    change nothing).  Operations (i, j = object numbers; object 0 is the compressed Data, every
+    returned Data gets the next number):
+      A i            d.array                 G i ix         d[ix]            C i    d.copy()
+      S i ix v       d[ix] = v (None=masked) T i axes inpl  d.transpose      Q i axes inpl  d.squeeze
+      D i pos inpl   d.insert_dimension      M i inpl       d.to_memory      U i inpl       d.uncompress
+      E i j          d.equals(e)             W i            cfdm.write of a field holding d"""
+    kind = rng.choice(["rc", "ri", "ric", "ga"])
+    for _ in range(50):
+        p = {"rc": gen_rc, "ri": gen_ri, "ric": gen_ric, "ga": gen_ga}[kind](rng)
+        full = (p["lead"] + p["dims"] + p["trail"]) if kind == "ga" else (p["shape"] + p["trail"])
+        # (a count variable shorter than the instance dimension can be decoded, not written)
+        if prod(full) <= 60 and len(full) <= 4 and (kind != "rc" or len(p["count"]) == p["shape"][0]):
+            break
+    p["kind"] = kind
+    p["ix"] = None
+    shapes = [list(full)]
+    ops = []
+
+    def result(i, new, inplace):
+        if inplace:
+            shapes[i] = list(new)
+        else:
+            shapes.append(list(new))
+
+    for _ in range(rng.randint(3, 12)):
+        i = 0 if rng.random() < 0.45 else rng.randrange(len(shapes))
+        sh = shapes[i]
+        nd = len(sh)
+        inplace = int(rng.random() < 0.4)
+        r = rng.random()
+        if r < 0.10:
+            ops.append(["A", i])
+        elif r < 0.24:
+            ix, new = _st_index(rng, sh, False)
+            ops.append(["G", i, norm_ix(ix)])
+            shapes.append(new)
+        elif r < 0.34:
+            ops.append(["C", i])
+            shapes.append(list(sh))
+        elif r < 0.46:
+            ix, _ = _st_index(rng, sh, True)
+            ops.append(["S", i, norm_ix(ix), None if rng.random() < 0.25 else rng.randint(100, 199)])
+        elif r < 0.60:
+            q = rng.random()
+            if q < 0.35:
+                ops.append(["T", i, None, inplace])
+                result(i, sh[::-1], inplace)
+            elif q < 0.55:
+                ops.append(["T", i, list(range(nd)), inplace])
+                result(i, sh, inplace)
+            elif q < 0.95:
+                perm = list(range(nd))
+                rng.shuffle(perm)
+                ops.append(["T", i, perm, inplace])
+                result(i, [sh[k] for k in perm], inplace)
+            else:
+                ops.append(["T", i, [0] * nd if nd > 1 else [1], inplace])      # not a permutation: ValueError
+        elif r < 0.72:
+            ones = [k for k, n in enumerate(sh) if n == 1]
+            big = [k for k, n in enumerate(sh) if n > 1]
+            q = rng.random()
+            if q < 0.5:
+                axes, drop = None, ones
+            elif q < 0.9 or not big:
+                drop = [k for k in ones if rng.random() < 0.6]
+                axes = list(drop)
+            else:
+                ops.append(["Q", i, [rng.choice(big)], inplace])                # ValueError
+                continue
+            new = [n for k, n in enumerate(sh) if k not in drop]
+            if not new:
+                continue            # (0-d data are not generated)
+            ops.append(["Q", i, axes, inplace])
+            result(i, new, inplace)
+        elif r < 0.80:
+            if nd >= 5:
+                continue
+            pos = rng.randint(0, nd)
+            ops.append(["D", i, pos, inplace])
+            result(i, sh[:pos] + [1] + sh[pos:], inplace)
+        elif r < 0.86:
+            ops.append(["M", i, inplace])
+            if not inplace:
+                shapes.append(list(sh))
+        elif r < 0.91:
+            ops.append(["U", i, inplace])
+            if not inplace:
+                shapes.append(list(sh))
+        elif r < 0.96:
+            ops.append(["E", i, rng.randrange(len(shapes))])
+        else:
+            ops.append(["W", i])
+    p["prog"] = ops
+    return p
+
+
+def st_token(op):
+    k = op[0]
+    if k in ("A", "C", "W"):
+        return f"{k}/{op[1]}"
+    if k == "G":
+        return f"G/{op[1]}/{c03.enc_ix(norm_ix(op[2]))}"
+    if k == "S":
+        return f"S/{op[1]}/{c03.enc_ix(norm_ix(op[2]))}/{'--' if op[3] is None else op[3]}"
+    if k in ("T", "Q"):
+        axes = "_" if op[2] is None else ",".join(str(a) for a in op[2])
+        return f"{k}/{op[1]}/{axes}/{int(op[3])}"
+    if k == "D":
+        return f"D/{op[1]}/{op[2]}/{int(op[3])}"
+    if k in ("M", "U"):
+        return f"{k}/{op[1]}/{int(op[2])}"
+    if k == "E":
+        return f"E/{op[1]}/{op[2]}"
+    raise fw.HarnessError("unknown operation " + repr(op))
+
+
+ENC_NAMES = dict(inst=["station", "traj", "dim"], sample=["obs", "element", "sample"],
+                 profile=["prof", "feature"], countvar=["row_size", "count"], indexvar=["stn_index", "index"])
+
+
+def gen_enc(rng):
+    """A compressed field built ab initio (count / index / list variables and compressed arrays given,
+    every netCDF name pinned), written with cfdm.write and read back.  Constructs: the field data
+    'temp', 0-2 DSG coordinates on the same axes, 0-1 coordinate on the instance axis, for indexed
+    contiguous arrays 0-1 coordinate on the (instance, profile) axes."""
+    kind = rng.choice(["rc", "ri", "ric", "ga"])
+    if kind == "ga":
+        q = gen_ga(rng)
+        lead = [[n, k] for n, k in zip(["time", "z", "w"], q["lead"])]
+        dims = [[n, k] for n, k in zip(["lat", "lon", "lev"], q["dims"])]
+        trail = [[n, k] for n, k in zip(["t0", "t1"], q["trail"])]
+        n = prod(q["lead"]) * len(q["list"]) * prod(q["trail"])
+        cons = [["temp", q["c"]]]
+        if rng.random() < 0.4:
+            cons.insert(0, ["alt", [None if v is None else 1000 + v for v in gen_values(rng, n, 0.2)]])
+        return dict(kind="ga", lead=lead, dims=dims, trail=trail, listvar=rng.choice(["landpoint", "list"]),
+                    list=q["list"], cons=cons, dtype=q["dtype"])
+    while True:
+        q = {"rc": gen_rc, "ri": gen_ri, "ric": gen_ric}[kind](rng)
+        if kind != "rc" or len(q["count"]) == q["shape"][0]:
+            break
+    count = q.get("count", [])
+    index = q.get("index", [])
+    N = sum(count) if kind in ("rc", "ric") else len(index)
+    p = dict(kind=kind, ft=int(rng.random() < 0.9), ninst=q["shape"][0], shape=q["shape"], count=count, index=index,
+             dtype=q["dtype"])
+    for k, pool in ENC_NAMES.items():
+        p[k] = rng.choice(pool)
+    cons = []
+    if rng.random() < 0.5:
+        cons.append(["lat", "instance", 0, [50 + i for i in range(p["ninst"])]])
+    for name in ["alt", "aux2"][: rng.choice([0, 1, 1, 2])]:
+        cons.append([name, "data", 1, [None if v is None else 1000 + v for v in gen_values(rng, N, 0.15)]])
+    if kind == "ric" and rng.random() < 0.6:
+        cons.append(["ptime", "profile", 1, [None if v is None else 2000 + v for v in gen_values(rng, len(index), 0.15)]])
+    cons.append(["temp", "data", 1, gen_values(rng, N, rng.choice([0, 0.15, 0.4]))])
+    # a construct that was assigned to (no longer compressed) among compressed ones
+    # (not the field data themselves: a field whose own data are not compressed is an ordinary field)
+    others = [i for i, c in enumerate(cons) if c[1] == "data" and c[0] != "temp"]
+    if others and rng.random() < 0.08:
+        cons[rng.choice(others)][2] = 0
+    p["cons"] = cons
+    return p
+
+
 def gen(rng, tier, n):
-    w = [("rc", 0.18), ("ri", 0.18), ("ric", 0.18), ("ga", 0.15), ("cmp", 0.14), ("rd", 0.1), ("fld", 0.07)]
+    w = [("rc", 0.13), ("ri", 0.13), ("ric", 0.13), ("ga", 0.13), ("cmp", 0.13), ("rd", 0.1), ("fld", 0.07),
+         ("st", 0.10), ("enc", 0.08)]
     for kind, frac in w:
         for _ in range(max(2, int(n * frac))):
             if kind == "rc":
@@ -394,6 +701,10 @@ def gen(rng, tier, n):
                 yield mk("C06.cmp", gen_cmp(rng))
             elif kind == "rd":
                 yield mk("C06.rd", gen_rd(rng))
+            elif kind == "st":
+                yield mk("C06.st", gen_st(rng))
+            elif kind == "enc":
+                yield mk("C06.enc", gen_enc(rng))
             else:
                 yield mk("C06.fld", gen_fld(rng))
 
@@ -415,7 +726,47 @@ def mk(stream, p):
         tags = ["rd:" + p["kind"]] + [t for t in inner.tags]
         if not p["c"]:
             tags.append("rd:no-samples")
-        return Case(stream, p, inner.line, key="rd " + inner.line, nontrivial=inner.nontrivial, tags=tags)
+        if p.get("coords"):
+            tags.append("rd:dsg-coordinates")
+        if p.get("ft"):
+            tags.append("rd:featureType=" + p["ft"])
+        k = p["kind"]
+        line = f"C06.rd kind={k}"
+        if k in ("ri", "ric"):
+            line += f" ninst={p['shape'][0]}"
+        if k in ("rc", "ric"):
+            line += f" count={fmt_list(p['count'])}"
+        if k in ("ri", "ric"):
+            line += f" index={fmt_list(p['index'])}"
+        if k == "ga":
+            line += f" list={fmt_list(p['list'])} lead={fmt_list(p['lead'])} dims={fmt_list(p['dims'])}"
+        line += f" trail={fmt_list(p['trail'])} c={mflat(p['c'])}"
+        return Case(stream, p, line, key=line, nontrivial=inner.nontrivial, tags=tags)
+    if stream == "C06.enc":
+        if p["kind"] == "ga":
+            named = lambda l: ",".join(f"{n}:{k}" for n, k in l)
+            line = (f"C06.enc kind=ga lead={named(p['lead'])} dims={named(p['dims'])} trail={named(p['trail'])} "
+                    f"listvar={p['listvar']} list={fmt_list(p['list'])} cons="
+                    + ";".join(f"{n}:{mflat(v)}" for n, v in p["cons"]))
+            tags = ["enc:ga", f"enc:constructs={len(p['cons'])}"]
+            return Case(stream, p, line, key=line, nontrivial=len(p["list"]) > 0, tags=tags)
+        line = (f"C06.enc kind={p['kind']} ft={p['ft']} inst={p['inst']} ninst={p['ninst']} sample={p['sample']} "
+                f"profile={p['profile']} countvar={p['countvar']} indexvar={p['indexvar']} "
+                f"count={fmt_list(p['count'])} index={fmt_list(p['index'])} cons="
+                + ";".join(f"{n}:{sp}:{cp}:{mflat(v)}" for n, sp, cp, v in p["cons"]))
+        tags = ["enc:" + p["kind"], f"enc:constructs={len(p['cons'])}"] + sorted({"enc:span=" + c[1] for c in p["cons"]})
+        if not p["ft"]:
+            tags.append("enc:no-featureType")
+        if enc_mixed(p):
+            tags.append("enc:uncompressed-construct-among-compressed")
+        return Case(stream, p, line, key=line, nontrivial=len(p["cons"][-1][3]) > 0, tags=tags)
+    if stream == "C06.st":
+        inner = mk("C06." + p["kind"], {k: v for k, v in p.items() if k not in ("kind", "prog")})
+        line = ("C06.st kind=" + p["kind"] + inner.line[len("C06." + p["kind"]):] + " prog="
+                + "|".join(st_token(o) for o in p["prog"]))
+        kinds = sorted({o[0] + ("!" if o[0] in "TQDMU" and o[-1] else "") for o in p["prog"]})
+        tags = ["st:" + p["kind"], f"st:ops>={min(len(p['prog']) // 4 * 4, 12)}"] + ["st:op=" + k for k in kinds]
+        return Case(stream, p, line, key=line, nontrivial=inner.nontrivial, tags=tags)
     if stream == "C06.rc":
         line = f"C06.rc count={fmt_list(p['count'])} shape={fmt_list(p['shape'])} trail={fmt_list(p['trail'])} c={mflat(p['c'])}{ixs}"
         nontrivial = sum(p["count"]) > 0
@@ -450,18 +801,44 @@ def mk(stream, p):
             tags.append("ga:unsorted")
         if p["lead"]:
             tags.append("ga:leading-dim")
+        if len(p["lead"]) > 1:
+            tags.append("ga:several-leading-dims")
+        if p["lead"] and p["trail"]:
+            tags.append("ga:leading-and-trailing-dims")
     elif stream == "C06.cmp":
         line = f"C06.cmp method={p['method']} shape={fmt_list(p['shape'])} a={mflat(p['a'])}"
+        if p.get("auxs"):
+            line += " aux=" + "|".join(mflat(x) for x in p["auxs"])
+        if p.get("p2") is not None:
+            line += " p2=" + mflat(p["p2"])
         nontrivial = any(v is not None for v in p["a"])
         tags += ["cmp:" + p["method"]] + ["cmp:" + t for t in triggers(p)]
+        if p.get("auxs"):
+            tags.append(f"cmp:same-axes-constructs={len(p['auxs'])}")
+            own = row_counts(p["a"], p["shape"][-1])
+            oth = [row_counts(x, p["shape"][-1]) for x in p["auxs"]]
+            if any(any(o[i] > own[i] for o in oth) for i in range(len(own))):
+                tags.append("cmp:construct-longer-than-data")
+            if any(any(o[i] < own[i] for o in oth) for i in range(len(own))):
+                tags.append("cmp:construct-shorter-than-data")
+        if p.get("p2") is not None:
+            tags.append("cmp:profile-coordinate")
+            if p2_beyond(p):
+                tags.append("cmp:profile-coordinate-beyond-data")
     else:
         line = None
         nontrivial = any(v is not None for v in p["a"])
         tags += ["fld:" + p["method"], "fld:aux=" + p["aux"]] + ["fld:" + t for t in triggers(p)]
         if p["write"]:
             tags.append("fld:write")
+            if p.get("second") in (3, 4):
+                tags.append("fld:second-field-shares-count-variables")
+            elif p.get("second"):
+                tags.append("fld:second-field-other-counts")
     if p.get("trail"):
         tags.append("trailing-dims")
+    if p.get("chunks"):
+        tags.append("chunked-subarrays")
     if p.get("ix") is not None:
         tags.append("subspace")
     return Case(stream, p, line, key=(line or stream + repr(sorted(p.items(), key=str))), nontrivial=nontrivial, tags=tags)
@@ -545,6 +922,16 @@ def impl(c):
             h[pos] = np.ma.masked
             ex["neq_mask"] = not d.equals(C.Data(h))
         ex["compressed_same"] = same(d.compressed_array, carr)
+        if p.get("chunks") and full.size:
+            # assemble the array from `subarrays(shapes=<chunks>)` exactly as CompressedArray.__getitem__ does
+            # with its default single chunk per dimension
+            A = d.source()
+            u = np.ma.masked_all(full.shape, dtype=full.dtype)
+            Sub = A.get_Subarray()
+            kw = {**A.conformed_data(), **A.subarray_parameters()}
+            for u_indices, u_shape, c_indices, _ in zip(*A.subarrays(shapes=[tuple(x) for x in p["chunks"]])):
+                u[u_indices] = Sub(indices=c_indices, shape=u_shape, **kw)[...]
+            ex["chunked_ok"] = same(u, full)
         # assignment uncompresses
         if full.size:
             d2 = d.copy()
@@ -559,9 +946,26 @@ def impl(c):
         return out
     if c.stream == "C06.cmp":
         arr = to_ma(p["a"], p["shape"], p["dtype"])
-        f, _ = make_field(p, arr)
+        f, axes = make_field(p, arr)
+        auxs = [to_ma(x, p["shape"], "f8") for x in (p.get("auxs") or [])]
+        for k, x in enumerate(auxs):
+            # different construct types: all of them are "metadata constructs spanning the same axes"
+            if k == 0:
+                con = C.AuxiliaryCoordinate(properties={"long_name": "aux0"}, data=C.Data(x))
+            else:
+                con = C.FieldAncillary(properties={"long_name": f"aux{k}"}, data=C.Data(x))
+            f.set_construct(con, axes=axes)
+        p2 = None
+        if p.get("p2") is not None:
+            p2 = to_ma(p["p2"], p["shape"][:2], "f8")
+            f.set_construct(C.AuxiliaryCoordinate(properties={"long_name": "ptime"}, data=C.Data(p2)), axes=axes[:2])
         g = f.compress(p["method"])
         ex = dict(ctype=g.data.get_compression_type(), src_ctype=f.data.get_compression_type())
+        ex["aux_full"] = [g.construct(f"long_name=aux{k}").array for k in range(len(auxs))]
+        ex["aux_ctype"] = [g.construct(f"long_name=aux{k}").data.get_compression_type() for k in range(len(auxs))]
+        if p2 is not None:
+            ex["p2_full"] = g.construct("long_name=ptime").array
+            ex["p2_ctype"] = g.construct("long_name=ptime").data.get_compression_type()
         ex["count"] = None if g.data.get_count(None) is None else g.data.get_count().array.tolist()
         ex["index"] = None if g.data.get_index(None) is None else g.data.get_index().array.tolist()
         ex["carr"] = g.data.compressed_array
@@ -571,10 +975,24 @@ def impl(c):
         ex["unc_ctype"] = u.data.get_compression_type()
         ex["unc_same"] = same(u.array, full)
         ex["ctype_after"] = g.data.get_compression_type()
+        # compressing again by the same method is a no-op, by another method a re-compression
+        again = g.compress(p["method"])
+        ex["again_ok"] = again.data.get_compression_type() == ex["ctype"] and same(again.array, full)
+        if len(p["shape"]) == 2:
+            other = "indexed" if p["method"] == "contiguous" else "contiguous"
+            r = g.compress(other)
+            ex["other_ok"] = (r.data.get_compression_type() == "ragged " + other and same(r.array, full)
+                              and all(same(r.construct(f"long_name=aux{k}").array, ex["aux_full"][k])
+                                      for k in range(len(auxs))))
         c.extra = ex
-        return canon(full)
+        return " ; ".join([canon(full)] + [canon(x) for x in ex["aux_full"]]
+                          + ([canon(ex["p2_full"])] if p2 is not None else []))
     if c.stream == "C06.fld":
         return impl_fld(c)
+    if c.stream == "C06.st":
+        return impl_st(c)
+    if c.stream == "C06.enc":
+        return impl_enc(c)
     if c.stream == "C06.rd":
         path = os.path.join(scratch(), f"r_{os.getpid()}.nc")
         try:
@@ -587,10 +1005,383 @@ def impl(c):
             d = fs[0].data
             full = d.array
             c.extra = dict(full=full, ctype=d.get_compression_type())
+            if p.get("coords"):
+                alt = find_by_ncvar(fs, "alt")
+                lat = find_by_ncvar(fs, "lat")
+                c.extra["alt"] = None if alt is None else (alt.array, alt.get_compression_type())
+                c.extra["lat"] = None if lat is None else lat.array
             return canon(full)
         finally:
             drop_scratch(path)
     raise fw.HarnessError("unknown stream " + c.stream)
+
+
+def st_transcript(obs, flags_after, final):
+    """The canonical transcript of a history (same layout as the model driver's)."""
+    return ("obs=" + " | ".join(f"{o} {fl}" for o, fl in zip(obs, flags_after))
+            + " final=" + " | ".join(("c:" if comp else "p:") + canon(a) for comp, a in final))
+
+
+def written_compressed(C, p, d):
+    """cfdm.write of a field that holds `d`; looked at with netCDF4 only: is there a count, index
+    or list variable?"""
+    import netCDF4
+    f = C.Field()
+    f.set_properties({"standard_name": "air_temperature",
+                      "featureType": "timeSeriesProfile" if p["kind"] == "ric" else "timeSeries"})
+    axes = [f.set_construct(C.DomainAxis(n)) for n in d.shape]
+    f.set_data(d, axes=axes, copy=False)
+    path = os.path.join(scratch(), f"s_{os.getpid()}.nc")
+    try:
+        C.write(f, path)
+        ds = netCDF4.Dataset(path)
+        try:
+            return any(a in v.ncattrs() for v in ds.variables.values()
+                       for a in ("sample_dimension", "instance_dimension", "compress"))
+        finally:
+            ds.close()
+    finally:
+        drop_scratch(path)
+
+
+def impl_st(c):
+    C = cfdm()
+    p = c.payload
+    d, carr = build("C06." + p["kind"], p)
+    heap = [d]
+    obs, flags = [], []
+    for op in p["prog"]:
+        k, i = op[0], op[1]
+        x = heap[i]
+        o = "ok"
+        try:
+            if k == "A":
+                o = canon(x.array)
+            elif k == "G":
+                heap.append(x[c03.py_ix(norm_ix(op[2]))])
+            elif k == "C":
+                heap.append(x.copy())
+            elif k == "S":
+                x[c03.py_ix(norm_ix(op[2]))] = C.masked if op[3] is None else op[3]
+            elif k == "T":
+                r = x.transpose(axes=op[2], inplace=bool(op[3]))
+                if not op[3]:
+                    heap.append(r)
+            elif k == "Q":
+                r = x.squeeze(axes=op[2], inplace=bool(op[3]))
+                if not op[3]:
+                    heap.append(r)
+            elif k == "D":
+                r = x.insert_dimension(position=op[2], inplace=bool(op[3]))
+                if not op[3]:
+                    heap.append(r)
+            elif k == "M":
+                r = x.to_memory(inplace=bool(op[2]))
+                if not op[2]:
+                    heap.append(r)
+            elif k == "U":
+                r = x.uncompress(inplace=bool(op[2]))
+                if not op[2]:
+                    heap.append(r)
+            elif k == "E":
+                o = str(bool(x.equals(heap[op[2]])))
+            elif k == "W":
+                o = "written:compressed" if written_compressed(C, p, x) else "written:plain"
+        except Exception as e:
+            o = "raised:" + fw.exc_enum(e)
+        obs.append(o)
+        flags.append("".join("c" if y.get_compression_type() else "p" for y in heap))
+    final = [(bool(y.get_compression_type()), y.array) for y in heap]
+    # the compressed array under every object that still is compressed is the one supplied
+    c.extra = dict(full=heap[0].array, untouched_ok=all(
+        same(y.compressed_array, carr) for y in heap if y.get_compression_type()))
+    return st_transcript(obs, flags, final)
+
+
+def oracle_st(c):
+    """numpy on the CF array, and the property's rule for the flags: an object is still compressed
+    iff it was created compressed (object 0), or copied / brought to memory / returned unchanged
+    from such an object, and has not been assigned to or changed in place since."""
+    p = c.payload
+    u = spec_array("C06." + p["kind"], p)
+    heap = [(True, u)]
+    obs, flags = [], []
+    for op in p["prog"]:
+        k, i = op[0], op[1]
+        comp, a = heap[i]
+        o = "ok"
+
+        def put(new, changed, inplace):
+            e = (comp and not changed, new)
+            if inplace:
+                heap[i] = e
+            else:
+                heap.append(e)
+        if k == "A":
+            o = canon(a)
+        elif k == "G":
+            pos = c03.expand([tuple(t) for t in norm_ix(op[2])], list(a.shape))
+            r = a
+            for ax, q in enumerate(pos):
+                r = np.ma.take(r, q, axis=ax)
+            heap.append((False, r))
+        elif k == "C":
+            heap.append((comp, a.copy()))
+        elif k == "S":
+            pos = c03.expand([tuple(t) for t in norm_ix(op[2])], list(a.shape))
+            b = np.ma.array(a.copy(), mask=np.ma.getmaskarray(a).copy())
+            b[np.ix_(*pos)] = np.ma.masked if op[3] is None else op[3]
+            heap[i] = (False, b)
+        elif k == "T":
+            nd = a.ndim
+            axes = list(range(nd))[::-1] if op[2] is None else list(op[2])
+            if sorted(axes) != list(range(nd)):
+                o = "raised:ValueError"
+            else:
+                put(np.ma.transpose(a, axes), axes != list(range(nd)), op[3])
+        elif k == "Q":
+            axes = [k2 for k2, n in enumerate(a.shape) if n == 1] if op[2] is None else list(op[2])
+            if any(a.shape[k2] != 1 for k2 in axes):
+                o = "raised:ValueError"
+            else:
+                put(a.reshape([n for k2, n in enumerate(a.shape) if k2 not in axes]), bool(axes), op[3])
+        elif k == "D":
+            put(np.ma.expand_dims(a, op[2]), True, op[3])
+        elif k == "M":
+            put(a, False, op[2])
+        elif k == "U":
+            put(a, True, op[2])
+        elif k == "E":
+            o = str(same(a, heap[op[2]][1]))
+        elif k == "W":
+            o = "written:compressed" if comp else "written:plain"
+        obs.append(o)
+        flags.append("".join("c" if x[0] else "p" for x in heap))
+    want = st_transcript(obs, flags, heap)
+    if c.impl_out != want:
+        return f"history differs from numpy on the CF array / the compression rule: got {c.impl_out} want {want}"
+    ex = c.extra if isinstance(c.extra, dict) else {}
+    if not ex.get("untouched_ok", False):
+        return "the compressed array under a still-compressed object is not the one supplied"
+    return None
+
+
+def enc_mixed(p):
+    return p["kind"] != "ga" and any(sp == "data" and not cp for _, sp, cp, _ in p["cons"])
+
+
+def enc_shape(p):
+    """In-memory uncompressed shape of the field data (one column more than needed, so that the
+    reader's shrinking to the largest count is exercised)."""
+    if p["kind"] == "rc":
+        return [p["ninst"], max(p["count"], default=0) + 1]
+    occ = max([p["index"].count(i) for i in range(p["ninst"])], default=0)
+    if p["kind"] == "ri":
+        return [p["ninst"], occ + 1]
+    return [p["ninst"], occ + 1, max(p["count"], default=0) + 1]
+
+
+def canon_file(path):
+    """The dataset as netCDF4 shows it, in the model's canonical text."""
+    import netCDF4
+    ds = netCDF4.Dataset(path)
+    try:
+        ds.set_auto_maskandscale(True)
+        dims = sorted(f"{n}:{len(d)}" for n, d in ds.dimensions.items())
+        vs = []
+        for n, v in ds.variables.items():
+            attrs = ""
+            special = False
+            for a in ("sample_dimension", "instance_dimension", "compress"):
+                if a in v.ncattrs():
+                    attrs += f"{a}={v.getncattr(a)},"
+                    special = True
+            arr = np.ma.asanyarray(v[...])
+            if special:
+                vals = fmt_list([int(x) for x in np.ma.getdata(arr).flatten()])
+            else:
+                m = np.ma.getmaskarray(arr).flatten()
+                d = np.ma.getdata(arr).flatten()
+                vals = "[" + ",".join("--" if mm else str(int(x)) for x, mm in zip(d, m)) + "]"
+            vs.append(f"{n}({','.join(v.dimensions)}){{{attrs}}}={vals}")
+        ft = int("featureType" in ds.ncattrs())
+        return f"featureType={ft} dims={','.join(dims)} vars={';'.join(sorted(vs))}"
+    finally:
+        ds.close()
+
+
+def find_by_ncvar(fields, name):
+    for f in fields:
+        if f.nc_get_variable(None) == name:
+            return f.data
+        for c in f.constructs.filter_by_data(todict=True).values():
+            if c.nc_get_variable(None) == name:
+                return c.data
+    return None
+
+
+def impl_enc(c):
+    C = cfdm()
+    p = c.payload
+    f = C.Field()
+    f.nc_set_variable("temp")
+    if p["kind"] == "ga":
+        lead = [k for _, k in p["lead"]]
+        dims = [k for _, k in p["dims"]]
+        trail = [k for _, k in p["trail"]]
+        f.set_properties({"standard_name": "air_temperature"})
+        axes = []
+        for n, k in p["lead"] + p["dims"] + p["trail"]:
+            da = C.DomainAxis(k)
+            da.nc_set_dimension(n)
+            axes.append(f.set_construct(da))
+        nl = len(lead)
+
+        def gathered(vals, dtype):
+            lv = C.List(data=C.Data(np.array(p["list"], dtype=int)))
+            lv.nc_set_variable(p["listvar"])
+            carr = to_ma(vals, lead + [len(p["list"])] + trail, dtype)
+            return C.Data(C.GatheredArray(compressed_array=C.Data(carr), shape=tuple(lead + dims + trail),
+                                          compressed_dimensions={nl: tuple(range(nl, nl + len(dims)))},
+                                          list_variable=lv))
+        for n, vals in p["cons"]:
+            if n == "temp":
+                f.set_data(gathered(vals, p["dtype"]), axes=axes)
+            else:
+                x = C.AuxiliaryCoordinate(properties={"long_name": n}, data=gathered(vals, "f8"))
+                x.nc_set_variable(n)
+                f.set_construct(x, axes=axes)
+        names = [n for n, _ in p["cons"]]
+    else:
+        kind = p["kind"]
+        shape = enc_shape(p)
+        props = {"standard_name": "air_temperature"}
+        if p["ft"]:
+            props["featureType"] = "timeSeriesProfile" if kind == "ric" else "timeSeries"
+        f.set_properties(props)
+        axes = []
+        for k, n in enumerate(shape):
+            da = C.DomainAxis(n)
+            if k == 0:
+                da.nc_set_dimension(p["inst"])
+            axes.append(f.set_construct(da))
+
+        def count_var():
+            v = C.Count(data=C.Data(np.array(p["count"], dtype=int)))
+            v.nc_set_variable(p["countvar"])
+            v.nc_set_sample_dimension(p["sample"])
+            if kind == "ric":
+                v.nc_set_dimension(p["profile"])
+            return v
+
+        def index_var():
+            v = C.Index(data=C.Data(np.array(p["index"], dtype=int)))
+            v.nc_set_variable(p["indexvar"])
+            v.nc_set_dimension(p["sample"] if kind == "ri" else p["profile"])
+            return v
+
+        def ragged(vals, dtype, span):
+            carr = C.Data(to_ma(vals, [len(vals)], dtype))
+            if span == "profile":
+                return C.RaggedIndexedArray(compressed_array=carr, shape=tuple(shape[:2]), index_variable=index_var())
+            if kind == "rc":
+                return C.RaggedContiguousArray(compressed_array=carr, shape=tuple(shape), count_variable=count_var())
+            if kind == "ri":
+                return C.RaggedIndexedArray(compressed_array=carr, shape=tuple(shape), index_variable=index_var())
+            return C.RaggedIndexedContiguousArray(compressed_array=carr, shape=tuple(shape),
+                                                  count_variable=count_var(), index_variable=index_var())
+        for n, span, comp, vals in p["cons"]:
+            dtype = p["dtype"] if n == "temp" else "f8"
+            if span == "instance":
+                d = C.Data(to_ma(vals, [len(vals)], dtype))
+                cax = axes[:1]
+            else:
+                d = C.Data(ragged(vals, dtype, span))
+                if not comp:
+                    d = C.Data(d.array)          # what an assignment leaves: a numpy array
+                cax = axes[:2] if span == "profile" else axes
+            if n == "temp":
+                f.set_data(d, axes=cax)
+            else:
+                x = C.AuxiliaryCoordinate(properties={"long_name": n}, data=d)
+                x.nc_set_variable(n)
+                f.set_construct(x, axes=cax)
+        names = [n for n, _, _, _ in p["cons"]]
+    path = os.path.join(scratch(), f"e_{os.getpid()}.nc")
+    try:
+        try:
+            C.write(f, path)
+        except Exception as e:
+            c.extra = dict(fail="write raised " + repr(e)[:200])
+            return "write-fails"
+        out = "file=" + canon_file(path)
+        h = C.read(path)
+        parts = []
+        for n in names:
+            d = find_by_ncvar(h, n)
+            parts.append(f"{n}:none" if d is None else f"{n}:{canon(d.array)}")
+        c.extra = dict(fail=None, nfields=len(h))
+        return out + " read=" + ";".join(parts)
+    finally:
+        drop_scratch(path)
+
+
+def oracle_enc(c):
+    """Independent of the model: the written file must decode (CF decoder on what netCDF4 shows) to the
+    arrays the field had in memory, and cfdm.read must present those arrays (up to the reader's shape)."""
+    p = c.payload
+    if c.impl_out == "write-fails":
+        return "cfdm.write of the field failed: " + str((c.extra or {}).get("fail"))
+    # what the field holds in memory, per construct
+    want = {}
+    if p["kind"] == "ga":
+        lead = [k for _, k in p["lead"]]
+        dims = [k for _, k in p["dims"]]
+        trail = [k for _, k in p["trail"]]
+        for n, vals in p["cons"]:
+            carr = to_ma(vals, lead + [len(p["list"])] + trail, "f8")
+            want[n] = cf_gathered(p["list"], lead, dims, carr)
+    else:
+        kind = p["kind"]
+        # the reader's shape
+        if kind == "rc":
+            shape = [p["ninst"], max(p["count"], default=0)]
+        else:
+            occ = max([p["index"].count(i) for i in range(p["ninst"])], default=0)
+            shape = [p["ninst"], occ] + ([max(p["count"], default=0)] if kind == "ric" else [])
+        for n, span, comp, vals in p["cons"]:
+            carr = to_ma(vals, [len(vals)], "f8")
+            if span == "instance":
+                want[n] = carr
+            elif span == "profile":
+                want[n] = cf_indexed(p["index"], shape[:2], carr)
+            elif not p["ft"]:
+                want[n] = None          # without featureType a reader cannot know: not claimed
+            elif kind == "rc":
+                want[n] = cf_contiguous(p["count"], shape, carr)
+            elif kind == "ri":
+                want[n] = cf_indexed(p["index"], shape, carr)
+            else:
+                want[n] = cf_indexed_contiguous(p["count"], p["index"], shape, carr)
+            if span == "profile" and not p["ft"]:
+                want[n] = None
+    got = dict(x.split(":", 1) for x in c.impl_out.split(" read=", 1)[1].split(";"))
+    for n, w in want.items():
+        if w is None:
+            continue
+        if got.get(n) != canon(w):
+            return f"cfdm.read presents {n} as {got.get(n)}, the CF definition gives {canon(w)}"
+    # the file itself: compressed variables are on the sample dimension
+    text = c.impl_out.split(" read=", 1)[0]
+    if p["kind"] != "ga":
+        for n, span, comp, vals in p["cons"]:
+            dim = {"data": p["sample"], "instance": p["inst"], "profile": p["profile"]}[span]
+            if f"{n}({dim})" not in text:
+                return f"variable {n} is not written on dimension {dim}: {text}"
+    else:
+        if f"{p['listvar']}({p['listvar']}){{compress=" + " ".join(n for n, _ in p["dims"]) + ",}" not in text:
+            return "list variable with its compress attribute not found: " + text
+    return None
 
 
 def write_file_independently(path, p):
@@ -625,7 +1416,7 @@ def write_file_independently(path, p):
             v[...] = to_ma(p["c"], p["lead"] + [n] + trail, p["dtype"])
             return
         N = len(p["c"]) // prod(trail)
-        ds.featureType = "timeSeries" if kind in ("rc", "ri") else "timeSeriesProfile"
+        ds.featureType = p.get("ft") or ("timeSeries" if kind in ("rc", "ri") else "timeSeriesProfile")
         ds.createDimension("station", p["shape"][0])
         ds.createDimension("obs", N)
         if kind == "rc":
@@ -647,6 +1438,14 @@ def write_file_independently(path, p):
         v = ds.createVariable("temp", p["dtype"], tuple(["obs"] + tdims), fill_value=fill)
         v.standard_name = "air_temperature"
         v[...] = to_ma(p["c"], [N] + trail, p["dtype"])
+        if p.get("coords"):
+            v.coordinates = "alt lat"
+            a = ds.createVariable("alt", "f8", ("obs",), fill_value=-99.0)
+            a.standard_name = "altitude"
+            a[...] = to_ma([None if x is None else 1000 + k for k, x in enumerate(p["c"])], [N], "f8")
+            la = ds.createVariable("lat", "f8", ("station",))
+            la.standard_name = "latitude"
+            la[...] = np.arange(p["shape"][0]) + 50.0
     finally:
         ds.close()
 
@@ -730,12 +1529,19 @@ def impl_fld(c):
                 g.domain_axis(axes[0]).nc_set_dimension(p["clash"])
             if p.get("second"):
                 # same shape, other counts: the rows in reverse order with one more trailing element masked
-                arr2 = np.ma.array(arr[..., ::-1, :].copy()) if arr.ndim == 2 else np.ma.array(arr[:, ::-1, :].copy())
-                arr2[..., -1] = np.ma.masked
+                if p["second"] in (3, 4):
+                    # same mask, other values, no coordinates of its own
+                    arr2 = np.ma.array(np.ma.getdata(arr) + 1, mask=np.ma.getmaskarray(arr).copy())
+                    if aux is not None:
+                        # (the counts of g also cover its coordinate: give the second field the same extent)
+                        arr2 = np.ma.array(np.ma.getdata(arr2), mask=np.ma.getmaskarray(arr) & np.ma.getmaskarray(aux))
+                else:
+                    arr2 = np.ma.array(arr[..., ::-1, :].copy()) if arr.ndim == 2 else np.ma.array(arr[:, ::-1, :].copy())
+                    arr2[..., -1] = np.ma.masked
                 f2, _ = make_field(p, arr2)
                 f2.set_property("standard_name", "air_pressure")
                 g2 = f2.compress(p["method"])
-                towrite = [g, g2] if p["second"] == 1 else [g2, g]
+                towrite = [g, g2] if p["second"] in (1, 3) else [g2, g]
             C.write(towrite, path)
             ex["file"] = read_file_independently(path, p, arr.shape)
             h = C.read(path)
@@ -752,6 +1558,25 @@ def impl_fld(c):
                     fail("re-read field is not compressed: " + repr(h.data.get_compression_type()))
                 if not same_up_to_padding(h.array, arr):
                     fail("re-read field data differ from the original")
+                if len(towrite) == 1:
+                    # the metadata constructs of the compressed field through write and read: the DSG
+                    # coordinate on the same axes (with its bounds) comes back compressed and equal, the
+                    # coordinate on the instance axis unchanged
+                    if aux is not None:
+                        ha = h.auxiliary_coordinate("altitude", default=None)
+                        if ha is None:
+                            fail("re-read field has no altitude coordinate")
+                        else:
+                            if ha.data.get_compression_type() != want_type:
+                                fail("re-read same-axes coordinate is not compressed")
+                            if not same_up_to_padding(ha.array, aux):
+                                fail("re-read same-axes coordinate differs from the original")
+                            if p["bounds"] and (not ha.has_bounds() or not same_up_to_padding(
+                                    ha.bounds.array, f.auxiliary_coordinate("altitude").bounds.array)):
+                                fail("re-read bounds of the same-axes coordinate differ from the original")
+                    hs = h.auxiliary_coordinate("long_name=station", default=None)
+                    if hs is None or not same(hs.array, st.array):
+                        fail("re-read instance-axis coordinate lost or changed")
         except Exception as e:
             fail("write/read raised " + repr(e)[:200])
         finally:
@@ -890,6 +1715,8 @@ def _oracle(c):
             return "compressed data equal a different array"
         if not ex["compressed_same"]:
             return "compressed_array is not the array that was supplied"
+        if not ex.get("chunked_ok", True):
+            return "the array assembled from subarrays(shapes=chunks) differs from the array assembled from one chunk"
         if "ctype_after_set" in ex:
             if ex["ctype_after_set"] != "":
                 return "data still compressed after assignment"
@@ -898,6 +1725,14 @@ def _oracle(c):
             if ex["src_after_copy_set"] != CTYPE[c.stream]:
                 return "assigning to a copy uncompressed the original"
         return None
+    if c.stream == "C06.st":
+        if ex is None:
+            return "implementation raised: " + str(c.impl_out)
+        return oracle_st(c)
+    if c.stream == "C06.enc":
+        if ex is None:
+            return "implementation raised: " + str(c.impl_out)
+        return oracle_enc(c)
     if c.stream == "C06.rd":
         if ex is None:
             return "implementation raised: " + str(c.impl_out)
@@ -908,6 +1743,20 @@ def _oracle(c):
             return f"array read from the file differs from the CF definition: got {canon(ex['full'])} want {canon(u)}"
         if ex["ctype"] != CTYPE["C06." + p["kind"]]:
             return f"data read from the file have compression type {ex['ctype']!r}"
+        if p.get("coords"):
+            # the DSG coordinate on the sample dimension is decoded like the data, the one on the
+            # instance dimension is left alone
+            q = dict(p)
+            q["c"] = [None if x is None else 1000 + k for k, x in enumerate(p["c"])]
+            q["dtype"] = "f8"
+            want = spec_array("C06." + p["kind"], q)
+            if ex.get("alt") is None or not same(ex["alt"][0], want):
+                return ("coordinate on the sample dimension differs from the CF definition: got "
+                        + ("nothing" if ex.get("alt") is None else canon(ex["alt"][0])) + " want " + canon(want))
+            if ex["alt"][1] != CTYPE["C06." + p["kind"]]:
+                return f"coordinate on the sample dimension has compression type {ex['alt'][1]!r}"
+            if ex.get("lat") is None or not same(ex["lat"], np.arange(p["shape"][0]) + 50.0):
+                return "coordinate on the instance dimension changed or lost"
         return None
     if c.stream == "C06.cmp":
         if ex is None:
@@ -932,6 +1781,23 @@ def _oracle(c):
             u = cf_indexed_contiguous(ex["count"], ex["index"], p["shape"], carr)
         if not same(u, arr):
             return "independent decode of the count/index variables and compressed array differs from the original"
+        if not ex.get("again_ok", True):
+            return "compressing an already compressed field by the same method changed it"
+        if not ex.get("other_ok", True):
+            return "re-compressing a compressed field by the other method changed an array or left the old type"
+        for k, x in enumerate(p.get("auxs") or []):
+            if not same(ex["aux_full"][k], to_ma(x, p["shape"], "f8")):
+                return (f"same-axes construct {k} after compress differs from the original: got "
+                        f"{canon(ex['aux_full'][k])} want {canon(to_ma(x, p['shape'], 'f8'))}")
+            if ex["aux_ctype"][k] != want_type:
+                return f"same-axes construct {k} has compression type {ex['aux_ctype'][k]!r}"
+        if p.get("p2") is not None:
+            if ex["p2_ctype"] != "ragged indexed":
+                return f"(instance, profile) coordinate has compression type {ex['p2_ctype']!r}"
+            want = to_ma(p["p2"], p["shape"][:2], "f8")
+            if not same(ex["p2_full"], want):
+                return (f"(instance, profile) coordinate after compress differs from the original: got "
+                        f"{canon(ex['p2_full'])} want {canon(want)}")
         return None
     if c.stream == "C06.fld":
         if ex is None:
@@ -1056,6 +1922,35 @@ def ic_trailing(shape, trail):
     return any(a < b for a, b in zip(ext, ext[1:]))
 
 
+def axis_on_shared_sample_dimension(p):
+    """Input of the open finding `axis-takes-over-sample-dimension-of-earlier-field`: the field is written
+    AFTER another compressed field, and its instance axis asks for the netCDF name of one of that field's
+    DSG dimensions (sample dimension 'sample' / 'element', profile dimension 'feature') and has exactly
+    that dimension's size."""
+    if p.get("second") not in (2, 4) or not p.get("clash"):
+        return False
+    arr = to_ma(p["a"], p["shape"], p["dtype"])
+    if p["second"] == 4:
+        m2 = np.ma.getmaskarray(arr)
+        if p.get("aux", "none") != "none":
+            m2 = m2 & np.ma.getmaskarray(aux_array(p, arr))
+        arr2 = np.ma.array(np.ma.getdata(arr), mask=m2)
+    else:
+        arr2 = np.ma.array(arr[..., ::-1, :].copy()) if arr.ndim == 2 else np.ma.array(arr[:, ::-1, :].copy())
+        arr2[..., -1] = np.ma.masked
+    cnt2 = [trailing_count(r) for r in arr2.reshape(-1, arr2.shape[-1])]
+    sizes = {}
+    if p["method"] == "indexed":
+        sizes["sample"] = sum(cnt2)
+    elif p["method"] == "contiguous":
+        sizes["element"] = sum(cnt2)
+    else:
+        mp = p["shape"][1]
+        sizes["element"] = sum(cnt2)
+        sizes["feature"] = sum(n_profiles(cnt2[i * mp:(i + 1) * mp]) for i in range(p["shape"][0]))
+    return sizes.get(p["clash"]) == p["shape"][0]
+
+
 def classify(c):
     """Signature of a known finding, or None.  For the streams that have a model the failure must
     be *exactly* what the code as it is now is known to compute (`old_*`); anything else stays
@@ -1080,6 +1975,9 @@ def classify(c):
                 return "indexed-decode-instance-without-samples"
     if c.stream == "C06.rd" and kind == "rc" and raised and not p["count"]:
         return "read-ragged-dataset-without-samples"
+    if (c.stream == "C06.cmp" and p2_beyond(p)
+            and "(instance, profile) coordinate after compress differs" in str(getattr(c, "oracle_fail", "") or "")):
+        return "compress-indexed-contiguous-profile-coordinate-beyond-last-profile-with-data"
     if c.stream == "C06.cmp" and full is not None:
         t = triggers(p)
         if t and full == canon(old_compress(p)):
@@ -1090,6 +1988,13 @@ def classify(c):
             # the bounds of the same-axes coordinate have a trailing dimension of size 2
             return "indexed-contiguous-trailing-dimension-longer-than-elements"
         both = msg + " " + str(getattr(c, "oracle_fail", "") or "")
+        if axis_on_shared_sample_dimension(p) and "not compressed: can't get compressed array" in both:
+            return "axis-takes-over-sample-dimension-of-earlier-field"
+        if (p["write"] and all(v is None for v in p["a"]) and p["aux"] != "none" and p["bounds"]
+                and "Chunksize for dimension position 0" in both):
+            # the residual case of that finding: the bounds (trailing dimension of size 2) of the coordinate
+            # of an entirely missing field lie on a sample dimension of size 0
+            return "read-ragged-dataset-without-samples"
         if (p.get("clash") or p.get("second")) and any(s in both for s in ("write/read raised", "re-read", "cfdm.read returned", "file: ", "independent decode of the written")):
             # fixed in /repo (known_findings.json): reported again if it returns
             return "written-sample-or-feature-dimension-name-not-the-unique-one"
@@ -1099,6 +2004,8 @@ def classify(c):
         if (p["write"] and p["method"] != "contiguous" and all(v is None for v in p["a"])
                 and "zero-size array" in msg):
             return "read-ragged-dataset-without-samples"
+    if c.stream == "C06.enc" and enc_mixed(p) and c.impl_out == "write-fails":
+        return "write-field-with-uncompressed-construct-among-compressed"
     # not one of the known findings: group the report by stream (this signature is never listed
     # in known_findings.json, so it is always a VIOLATION)
     return "unexplained:" + c.stream
